@@ -924,15 +924,17 @@ class UCSReplication(MessagePassingComputation):
             }
             if len(without) != len(self._replication_computations_cache):
                 self._replication_computations_cache = without
-                self._removed_agents.add(agent)
+            # The removed agent may host replicas of our computations, or have
+            # pending requests from us, even when it is not (any more) in the
+            # cache of neighbor replication computations.
+            self._removed_agents.add(agent)
 
-                # if we had pending request to this agent, we will never get an
-                # answer
-                self._answer_lost_requests(agent)
+            # if we had pending request to this agent, we will never get an
+            # answer
+            self._answer_lost_requests(agent)
 
-                # Re-launch replication for the computation(s) that have lost a
-                # replica.
-                self._replicate_on_agent_lost(agent)
+            # if this agent was hosting some of our replicas, replicate again
+            self._replicate_on_agent_lost(agent)
 
         elif event == "agent_added":
             if agent != self.agt_name:
